@@ -24,6 +24,9 @@ type stampWorld struct {
 	decoyU                        []*wire.UDPEndpoint // decoy addresses named in Via sent-by / spoofed received
 	decoyT                        []*wire.TCPListener
 	joinedAnswers, foreignAnswers int
+	// ephR: per UA a second socket on an ephemeral port (retransmissions from a new source port)
+	ephR        []*wire.UDPEndpoint
+	retransmits int
 }
 
 const decoyPort = 5099
@@ -59,6 +62,11 @@ func scenarioStamp() int {
 			return 2
 		}
 		w.eph = append(w.eph, e)
+		if er, err := w.Net.UDP(fmt.Sprintf("ua%d-eph-retransmit", u.Index), u.IP+":0"); err == nil {
+			w.ephR = append(w.ephR, er)
+		} else {
+			w.ephR = append(w.ephR, nil)
+		}
 		e2, err := w.Net.UDP(fmt.Sprintf("ua%d:%d", u.Index, decoyPort), fmt.Sprintf("%s:%d", u.IP, decoyPort))
 		if err != nil {
 			fmt.Println("HARNESS-ERROR", err)
@@ -180,6 +188,7 @@ func scenarioStamp() int {
 		run.Observe("answers_after_more_than_a_minute_back_at_the_source", slowOK)
 	}
 	run.Observe("requests_stamped_correctly_in_concurrent_bursts", burstStamped)
+	run.Observe("requests_retransmitted_from_a_new_source_port_while_ringing", w.retransmits)
 	run.Observe("answers_with_all_via_entries_in_one_line", w.joinedAnswers)
 	run.Observe("answers_arriving_from_another_element_than_the_backend", w.foreignAnswers)
 	run.Observe("requests_seen_stamped", stamped)
@@ -423,7 +432,8 @@ func stampCase(run *ev.Run, w *stampWorld, g *sip.Gen, i int, prop string, stamp
 		}
 	}
 	// --- the backend answers from its configured address
-	resp := &sip.Msg{Start: fmt.Sprintf("SIP/2.0 %d OK", []int{200, 180, 404, 486}[g.R.Intn(4)])}
+	firstStatus := []int{200, 180, 404, 486}[g.R.Intn(4)]
+	resp := &sip.Msg{Start: fmt.Sprintf("SIP/2.0 %d OK", firstStatus)}
 	for _, h := range atBackend.Msg.Headers {
 		switch sip.Canon(h.Name) {
 		case "via", "from", "call-id", "cseq", "x-vf":
@@ -591,6 +601,75 @@ func stampCase(run *ev.Run, w *stampWorld, g *sip.Gen, i int, prop string, stamp
 		if len(resps) == 1 && !atWant(resps[0]) && !(sv.NoRecv && !tcpIngress) {
 			run.Violation("response came back to a socket other than the one the request came from", detail("", map[string]any{"expected_at": wantDesc, "responses_seen_at": where}))
 			return false
+		}
+	}
+	if prop == "C07" && ingress == "udp" && !sv.NoRecv && rportShape != "absent" && firstStatus == 180 && uidx < len(w.ephR) && w.ephR[uidx] != nil && atBackend.Proto == "udp" {
+		// the call is still ringing; the sender retransmits the request, this time from another
+		// source port (its NAT binding changed). The copy is stamped with the new port, and the
+		// answer to the copy goes to that port.
+		er := w.ephR[uidx]
+		nreq := func(o []*wire.Obs) int {
+			n := 0
+			for _, x := range o {
+				if x.Msg != nil && x.Msg.IsRequest() && sv.BackendEndpointNames()[x.Ep] {
+					n++
+				}
+			}
+			return n
+		}
+		nresp := func(o []*wire.Obs) int {
+			n := 0
+			for _, x := range o {
+				if x.Msg != nil && !x.Msg.IsRequest() {
+					n++
+				}
+			}
+			return n
+		}
+		r0, p0 := nreq(w.Net.ForCase(id)), nresp(w.Net.ForCase(id))
+		er.Send(w.ListenerAddr(path), m.Bytes(), id)
+		if o2, ok := w.Net.WaitCase(id, func(o []*wire.Obs) bool { return nreq(o) > r0 }, w.BarrierWait); ok {
+			var copyAt *wire.Obs
+			for _, x := range o2 {
+				if x.Msg != nil && x.Msg.IsRequest() && sv.BackendEndpointNames()[x.Ep] {
+					copyAt = x
+				}
+			}
+			if copyAt != nil && copyAt.Proto == "udp" {
+				r2 := &sip.Msg{Start: "SIP/2.0 183 Session Progress"}
+				for _, h := range copyAt.Msg.Headers {
+					switch sip.Canon(h.Name) {
+					case "via", "from", "call-id", "cseq", "x-vf":
+						r2.Headers = append(r2.Headers, h)
+					case "to":
+						r2.Headers = append(r2.Headers, sip.Header{Name: h.Name, Value: h.Value + ";tag=t" + id})
+					}
+				}
+				r2.Headers = append(r2.Headers, sip.Header{Name: "Content-Length", Value: "0"})
+				for _, e := range sv.BeUDP {
+					if e.Name == copyAt.Ep {
+						e.Send(fmt.Sprintf("%s:%d", sv.IP, sv.UDP), r2.Bytes(), id)
+					}
+				}
+				w.Net.WaitCase(id, func(o []*wire.Obs) bool { return nresp(o) > p0 }, w.BarrierWait)
+				w.Barrier(path)
+				var newResp []*wire.Obs
+				for _, x := range w.Net.ForCase(id) {
+					if x.Msg != nil && !x.Msg.IsRequest() {
+						newResp = append(newResp, x)
+					}
+				}
+				newResp = newResp[vfMin(p0, len(newResp)):]
+				w.retransmits++
+				var where2 []string
+				for _, x := range newResp {
+					where2 = append(where2, fmt.Sprintf("%s %s", x.Ep, x.Local))
+				}
+				if len(newResp) != 1 || newResp[0].Ep != er.Name {
+					run.Violation("the answer to a request retransmitted from a new source port did not go to that port", detail("", map[string]any{"first_copy_from": fmt.Sprintf("%s:%d", trueIP, truePort), "retransmitted_from": er.Addr, "answer_seen_at": where2, "sender_entry_of_the_copy_at_backend": copyAt.Msg.List("via")}))
+					return false
+				}
+			}
 		}
 	}
 	run.Eval(cell + "|" + lay)
